@@ -267,3 +267,104 @@ def cpdag(n, edges):
 
 def lgamma(x):
     return math.lgamma(x)
+
+
+# --------------------------------------------------------------------------------------------------
+# reference junction tree (own construction; used to hand pgmpy a JunctionTree world)
+# --------------------------------------------------------------------------------------------------
+def ref_triangulate(n, edges, order=None):
+    """Elimination-based triangulation; returns (fill-in edge set incl. originals, elimination cliques)."""
+    adj = {v: set() for v in range(n)}
+    for a, b in edges:
+        adj[a].add(b)
+        adj[b].add(a)
+    work = {v: set(s) for v, s in adj.items()}
+    alive = set(range(n))
+    cliques = []
+    full = {frozenset(e) for e in edges}
+    seq = list(order) if order is not None else []
+    while alive:
+        if order is not None:
+            v = seq.pop(0)
+        else:
+            # min-fill, ties by index
+            def fill(x):
+                nb = sorted(work[x])
+                return sum(1 for i in range(len(nb)) for j in range(i + 1, len(nb)) if nb[j] not in work[nb[i]])
+            v = min(sorted(alive), key=lambda x: (fill(x), x))
+        nb = sorted(work[v])
+        cliques.append(frozenset([v] + nb))
+        for i in range(len(nb)):
+            for j in range(i + 1, len(nb)):
+                a, b = nb[i], nb[j]
+                work[a].add(b)
+                work[b].add(a)
+                full.add(frozenset((a, b)))
+        for u in nb:
+            work[u].discard(v)
+        del work[v]
+        alive.discard(v)
+    maximal = [c for c in cliques if not any(c < d for d in cliques)]
+    uniq = []
+    for c in maximal:
+        if c not in uniq:
+            uniq.append(c)
+    return full, uniq
+
+
+def ref_junction_tree(n, edges, order=None):
+    """(cliques as sorted lists, tree edges as index pairs) with maximal sepsets (Kruskal)."""
+    _, cliques = ref_triangulate(n, edges, order)
+    cl = [sorted(c) for c in cliques]
+    cand = []
+    for i in range(len(cl)):
+        for j in range(i + 1, len(cl)):
+            w = len(set(cl[i]) & set(cl[j]))
+            if w > 0:
+                cand.append((-w, i, j))
+    cand.sort()
+    parent = list(range(len(cl)))
+
+    def find(a):
+        while parent[a] != a:
+            parent[a] = parent[parent[a]]
+            a = parent[a]
+        return a
+
+    tree = []
+    for w, i, j in cand:
+        ri, rj = find(i), find(j)
+        if ri != rj:
+            parent[ri] = rj
+            tree.append((i, j))
+    return cl, tree
+
+
+def is_chordal(nodes, edge_sets):
+    """Maximum cardinality search test."""
+    nodes = list(nodes)
+    adj = {v: set() for v in nodes}
+    for e in edge_sets:
+        a, b = tuple(e)
+        adj[a].add(b)
+        adj[b].add(a)
+    weight = {v: 0 for v in nodes}
+    order = []
+    unnum = set(nodes)
+    while unnum:
+        v = max(sorted(unnum, key=repr), key=lambda x: weight[x])
+        order.append(v)
+        unnum.discard(v)
+        for u in adj[v]:
+            if u in unnum:
+                weight[u] += 1
+    pos = {v: i for i, v in enumerate(order)}
+    for v in order:
+        earlier = [u for u in adj[v] if pos[u] < pos[v]]
+        if not earlier:
+            continue
+        p = max(earlier, key=lambda u: pos[u])
+        for u in earlier:
+            if u != p and u not in adj[p]:
+                return False
+    return True
